@@ -356,7 +356,11 @@ def mounted_store_unit(ctx):
 
     env = base_env(MOUNT)
     env.update({"tempfile": _tempfile, "os": _os, "contextmanager": contextlib.contextmanager, "atexit": _atexit, "shutil": _shutil, "threading": _threading})
-    get(MOUNT, "_path_context").compile_into(env)
+    try:
+        get(MOUNT, "_path_context").compile_into(env)
+    except Exception as e:  # noqa: BLE001  (the helper may have been inlined into read / write: then there is nothing to supply)
+        if type(e).__name__ != "ExtractionError":
+            raise
     read = get(MOUNT, "MountedStore.read").compile_into(env)
     write = get(MOUNT, "MountedStore.write").compile_into(env)
     RESULT, VALUE = object(), object()
